@@ -46,3 +46,6 @@ package mdiff
 //@   loop 1: invariant [C13] mem: old_arrays_unchanged(out)
 //@   loop 1: invariant [C13] frame: forall c *Chunk :: {c.LStart} {c.LEnd} {c.RStart} {c.REnd} {c.Edits} old(allocated(c)) ==> c.LStart == old(c.LStart) && c.LEnd == old(c.LEnd) && c.RStart == old(c.RStart) && c.REnd == old(c.REnd) && c.Edits == old(c.Edits)
 //@   loop 1: invariant [C13] arrays: old_arrays_unchanged(es)
+//@   at after "out = append(out, cur)": assert [C13] forall j int :: {out[j]} 0 <= j && j < len(out) - 1 ==> chunkOK(out[j], lhs, rhs)
+//@   at after "cur.RStart, cur.REnd = rcur, rcur": assert [C13] forall j int :: {out[j]} 0 <= j && j < len(out) - 1 ==> chunkOK(out[j], lhs, rhs)
+//@   at after "cur.RStart, cur.REnd = rcur, rcur": assert [C13] partial(cur, lhs, rhs) && len(cur.Edits) == 0 && cur == out[len(out) - 1]
